@@ -769,6 +769,11 @@ func replayAbort(cfg abortCfg, sc schedCase, n int) replayResult {
 			if cfg.Mode == "run" {
 				d = later(cbSrc)
 				e = laterOnNew(cbSrc)
+			} else {
+				// the session's variables are still values (the cancelled fragment declared f)
+				if x := later("return [f == undefined || isFunction(f), 1]"); x != "[true, 1] <nil>" {
+					d = "session variable f: " + x
+				}
 			}
 			if a == "<nil> error:probe" && b == "[1, 2] <nil>" && c == "42 <nil>" && d == "[5, 5] <nil>" && e == "[5, 5] <nil>" {
 				rr.FollowUp = "42 <nil>"
